@@ -228,15 +228,18 @@ pub fn gen_case(campaign: &str, r: &mut Rng) -> Case {
             if r.chance(1, 8) && !p.is_empty() {
                 // extreme argument with BALANCED terms: x = +-2^k far outside the moderate range, c_i = m_i * 2^(-k*i)
                 // (exact scaling), so that every partial term c_i x^i is an ordinary number while bare powers of x are not
-                let n = p.len() as i64;
-                let kmax = (1000 / n.max(1)).clamp(1, 500);
-                let mut k = r.range(40.min(kmax), kmax) as i32;
+                // |k| up to 500 whatever the length: a coefficient whose scaled value 2^(-k*i) is not a normal number is
+                // ZERO instead (trailing zero coefficients with a huge argument: 0 * x^i is an ordinary partial term, a
+                // bare power x^i is not), and one in four of the others is zero as well
+                let mut k = r.range(40, 500) as i32;
                 if r.chance(1, 2) {
                     k = -k;
                 }
                 x = (2.0f64).powi(k) * if r.chance(1, 2) { -1.0 } else { 1.0 };
                 cx = Cls::Huge;
-                p = (0..p.len()).map(|i| moderate(r).0 * (2.0f64).powi(-k * i as i32)).collect();
+                p = (0..p.len())
+                    .map(|i| if (k as i64 * i as i64).abs() > 960 || r.chance(1, 4) { 0.0 } else { moderate(r).0 * (2.0f64).powi(-k * i as i32) })
+                    .collect();
                 sname = "balanced-extreme".to_string();
             } else if r.chance(1, 10) {
                 cx = *r.pick(&[Cls::Tiny, Cls::Huge, Cls::Subnormal]);
